@@ -404,6 +404,7 @@ func main() {
 	}
 	sort.Strings(out.Functions)
 	writeOut()
+	dumpForkProfile()
 	if out.Error != "" {
 		fmt.Fprintln(os.Stderr, out.Error)
 		os.RemoveAll(scratch)
